@@ -27,6 +27,7 @@ from lib.common import Broken, log
 LEVEL = "model_checking"
 
 ALL_DEVS = ["shared-self-copy-assign-sole-owner"]
+MAX_REPORTED = 25
 _LOCK = threading.Lock()
 
 
@@ -321,8 +322,11 @@ def generate(ctx, m):
 # harness side
 # ------------------------------------------------------------------------------------------------
 def build_all():
+    # vptr: nostd::shared_ptr's assignment operators call a virtual member of their own, already destroyed,
+    # wrapper on EVERY self-assignment (undefined, but without an observable effect unless the pointer is the
+    # only owner, which is what the deviation is about); UBSan's vptr check would abort on all of them
     main = build.harness("c20_replay", ["c20_main.cc", "c20_sv.cc", "c20_own.cc", "c20_var.cc", "c20_fref.cc"],
-                         "asan", need_sdk=False)
+                         "asan", extra=["-fno-sanitize=vptr"], need_sdk=False)
     # std::span (the cross-check of the span spec) needs C++20; nostd/span.h does not depend on the level
     span = build.harness("c20_span", ["c20_main.cc", "c20_span.cc"], "asan", extra=["-std=gnu++20"], need_sdk=False)
     return {"main": main, "span": span}
@@ -367,6 +371,10 @@ def classify(ctx, recs, by_id, ninst):
     broken = []
     for x in sorted(recs, key=lambda x: (x.get("m", ""), x.get("id", -1), x.get("inst", 0))):
         kind = x["r"]
+        if kind in ("mismatch", "crash"):
+            ctx.extra["failing_replays"] = ctx.extra.get("failing_replays", 0) + 1
+            if len(ctx.violations) >= MAX_REPORTED:
+                continue            # all are counted; only the first MAX_REPORTED get a replay file
         b = by_id.get((x.get("m"), x.get("id")))
         replay = {"behaviour": b, "record": x, "instances": ninst}
         where = "%s behaviour #%s (%s) step %s %s" % (x.get("m"), x.get("id"), (b or {}).get("src"), x.get("step"), x.get("op", ""))
